@@ -39,7 +39,7 @@ def G(name, harness, entry=None, srcs=(), defs=(), arch=64, enforce=(), replace=
       rewrite=(), native=True, native_srcs=None, search=0, fn=(), note="",
       obj_bits=None, ndebug=False, fast=False, neg_control=False, cfg_indep=False,
       no_shims=False, native_defs=(), stubs=(), expect_fail=(), dfcc=False,
-      inline_loops=False):
+      inline_loops=False, split=False, src_defs=()):
     """One obligation group.
     harness   : path under /verif (C file holding the harness function `entry`)
     srcs      : repo-relative sources compiled with the harness (real code)
@@ -92,6 +92,44 @@ class Infra(Exception):
     pass
 
 
+import threading
+SLOTS = threading.BoundedSemaphore(int(os.environ.get("VERIF_JOBS", "14")))
+_cache_locks = {}
+_cache_guard = threading.Lock()
+
+
+def set_jobs(n):
+    global SLOTS
+    SLOTS = threading.BoundedSemaphore(n)
+
+
+def slot_sh(cmd, **kw):
+    with SLOTS:
+        return sh(cmd, **kw)
+
+
+def cached_compile(pid, path, flags, env):
+    """goto-cc -c of one translation unit, once per run and flag set"""
+    key = hashlib.sha1(("\0".join([path] + flags)).encode()).hexdigest()[:16]
+    cdir = os.path.join(WORK, pid, "_cache")
+    os.makedirs(cdir, exist_ok=True)
+    o = os.path.join(cdir, key + ".gb")
+    with _cache_guard:
+        lk = _cache_locks.setdefault(key, threading.Lock())
+    with lk:
+        if os.path.exists(o):
+            return o
+        e2 = dict(env)
+        e2["TMPDIR"] = os.path.join(cdir, "tmp")
+        os.makedirs(e2["TMPDIR"], exist_ok=True)
+        tmp = o + ".part"
+        rc, out, err, _, to = slot_sh(["goto-cc", "-c"] + flags + [path, "-o", tmp], timeout=120, env=e2)
+        if rc != 0:
+            raise Infra("goto-cc failed on %s: %s" % (path, (err or out)[-1500:]))
+        os.rename(tmp, o)
+        return o
+
+
 def apply_rewrites(g, wd):
     """mechanical, must-fire rewrite rules on a scratch copy (front-end limits only)"""
     mapping = {}
@@ -116,37 +154,37 @@ def common_includes(arch):
     return inc
 
 
-def build_goto(g, wd, env):
+def build_goto(g, wd, env, pid="X"):
     rw = apply_rewrites(g, wd)
-    defs = ["-DVERIF_CBMC"] + ["-D" + d for d in g["defs"]]
-    if g["ndebug"]:
-        defs.append("-DNDEBUG")
-    if g["fast"]:
-        defs.append("-DSAFE_FAST")
+    cfg = (["-DNDEBUG"] if g["ndebug"] else []) + (["-DSAFE_FAST"] if g["fast"] else [])
+    hdefs = ["-DVERIF_CBMC"] + ["-D" + d for d in g["defs"]] + cfg
+    sdefs = ["-D" + d for d in g["src_defs"]] + cfg
     inc = common_includes(g["arch"])
     objs = []
-    units = [(os.path.join(VERIF, g["harness"]), [])]
+    units = [(os.path.join(VERIF, g["harness"]), hdefs)]
     if not g["no_shims"]:
         units.append((os.path.join(VERIF, "lib/cbmc_shims.c"), []))
     for s in g["stubs"]:
-        units.append((os.path.join(VERIF, s), []))
+        units.append((os.path.join(VERIF, s), hdefs))
     for s in g["srcs"]:
-        extra = []
+        extra = list(sdefs)
         if s.endswith("core/mem.c") and not g["no_shims"]:
-            extra = ["-D%s=%s_real" % (p, p) for p in MEM_PREDS]
+            extra += ["-D%s=%s_real" % (p, p) for p in MEM_PREDS]
         if s.endswith("core/util.c") and not g["no_shims"]:
-            extra = ["-DutilAssert=utilAssert_real"]
+            extra += ["-DutilAssert=utilAssert_real"]
         units.append((rw.get(s, os.path.join(REPO, s)), extra))
     for i, (path, extra) in enumerate(units):
-        o = os.path.join(wd, "u%d.gb" % i)
-        cmd = ["goto-cc", "-c"] + inc + defs + extra + [path, "-o", o]
-        # relative #include "…" inside rewritten copies must still find the repo's dir
+        flags = inc + extra
         if path.startswith(wd):
+            # rewritten copy: relative #include "…" must still find the repo's dir; not cached
             orig = [k for k, v in rw.items() if v == path][0]
-            cmd[2:2] = ["-I", os.path.dirname(os.path.join(REPO, orig))]
-        rc, out, err, _, to = sh(cmd, timeout=120, env=env)
-        if rc != 0:
-            raise Infra("goto-cc failed on %s: %s" % (path, (err or out)[-1500:]))
+            o = os.path.join(wd, "u%d.gb" % i)
+            cmd = ["goto-cc", "-c", "-I", os.path.dirname(os.path.join(REPO, orig))] + flags + [path, "-o", o]
+            rc, out, err, _, to = slot_sh(cmd, timeout=120, env=env)
+            if rc != 0:
+                raise Infra("goto-cc failed on %s: %s" % (path, (err or out)[-1500:]))
+        else:
+            o = cached_compile(pid, path, flags, env)
         objs.append(o)
     a = os.path.join(wd, "a.gb")
     cmd = ["goto-cc"] + (["-m32"] if g["arch"] == 32 else []) + ["--function", g["entry"]] + objs + ["-o", a]
@@ -164,7 +202,9 @@ def build_goto(g, wd, env):
             cmd += ["--replace-call-with-contract", "%s/%s" % (f, c) if c else f]
         if g["loops"]:
             lf = g["loops"]
-            if not os.path.isabs(lf):
+            if isinstance(lf, dict):
+                lf = make_loops_json(lf, cur, wd, env)
+            elif not os.path.isabs(lf):
                 lf = os.path.join(VERIF, lf)
             cmd += ["--loop-contracts-file", lf]
         if g["loops"] or g["inline_loops"]:
@@ -177,8 +217,60 @@ def build_goto(g, wd, env):
     return cur
 
 
+_C_KEYWORDS = set("""sizeof unsigned signed long int char short void const struct union enum
+    __CPROVER_object_whole __CPROVER_object_from __CPROVER_object_upto __CPROVER_loop_entry
+    __CPROVER_same_object __CPROVER_POINTER_OFFSET __CPROVER_POINTER_OBJECT __CPROVER_OBJECT_SIZE
+    __CPROVER_forall __CPROVER_exists __CPROVER_size_t __CPROVER_is_fresh""".split())
+
+
+def make_loops_json(spec, binary, wd, env):
+    """spec: {function: [ {assigns, inv, dec}, ... ]} (loop ordinals in program order).
+    Base names used in the clauses are resolved to CBMC symbol ids (f::x, f::1::x, ...)
+    from the binary's symbol table, so the contract text mentions only parameters and
+    loop counters by their source names."""
+    rc, out, err, _, _ = slot_sh(["goto-instrument", "--show-symbol-table", binary], timeout=120, env=env)
+    syms = re.findall(r"^Symbol\.+: (\S+)$", out, re.M)
+    rc, lout, err, _, _ = slot_sh(["goto-instrument", "--show-loops", binary], timeout=120, env=env)
+    nloops = {}
+    for m in re.finditer(r"^Loop (\S+)\.(\d+):", lout, re.M):
+        nloops[m.group(1)] = max(nloops.get(m.group(1), 0), int(m.group(2)) + 1)
+    fns = []
+    for fn, loops in spec.items():
+        if nloops.get(fn, 0) != len(loops):
+            raise Infra("loop contracts: %s has %d loops in the current source, the plan annotates %d"
+                        % (fn, nloops.get(fn, 0), len(loops)))
+        local = {}
+        for sid in syms:
+            if sid.startswith(fn + "::") and "$" not in sid:
+                base = sid.split("::")[-1]
+                local.setdefault(base, sid)
+        entries = []
+        for k, lp in enumerate(loops):
+            text = " ".join([lp.get("assigns", ""), lp["inv"], lp.get("dec", "")])
+            ids = set(re.findall(r"[A-Za-z_][A-Za-z_0-9]*", text)) - _C_KEYWORDS
+            smap = []
+            for ident in sorted(ids):
+                if ident in local:
+                    smap.append("%s,%s" % (ident, local[ident]))
+                elif ident in syms:
+                    pass
+                elif not re.match(r"^[A-Z_0-9]+$|^[0-9]", ident):
+                    raise Infra("loop contract of %s loop %d names %r which is not a symbol of the function"
+                                % (fn, k, ident))
+            e = {"loop_id": str(k), "invariants": lp["inv"], "symbol_map": ";".join(smap)}
+            if lp.get("assigns"):
+                e["assigns"] = lp["assigns"]
+            if lp.get("dec"):
+                e["decreases"] = lp["dec"]
+            entries.append(e)
+        fns.append({fn: entries})
+    path = os.path.join(wd, "loops.json")
+    json.dump({"sources": [], "functions": fns}, open(path, "w"), indent=1)
+    return path
+
+
 def cbmc_cmd(g, binary, backend):
-    cmd = ["cbmc", binary, "--json-ui", "--trace"]
+    cmd = ["cbmc", binary, "--json-ui", "--trace", "--drop-unused-functions"]
     cmd += (g["checks"] if g["checks"] is not None else DEFAULT_CHECKS)
     if g["unwind"] is not None:
         cmd += ["--unwind", str(g["unwind"]), "--unwinding-assertions"]
@@ -216,12 +308,59 @@ def parse_cbmc(out):
     return results, status, "\n".join(msgs)
 
 
-def run_cbmc(g, binary, env):
+def list_properties(g, binary, env):
+    cmd = cbmc_cmd(g, binary, "sat")
+    cmd = [c for c in cmd if c != "--trace"] + ["--show-properties"]
+    rc, out, err, wall, to = slot_sh(cmd, timeout=300, mem_gb=g["mem_gb"], env=env)
+    try:
+        doc = json.loads(out)
+    except Exception:
+        raise Infra("--show-properties failed: %s" % (out + err)[-1000:])
+    for item in doc:
+        if isinstance(item, dict) and "properties" in item:
+            return item["properties"]
+    raise Infra("--show-properties: no property list")
+
+
+def run_cbmc_split(g, binary, env):
+    """one solver run per harness assertion (+ one for all generated safety checks):
+    the conjunction of many value obligations in a single SAT query was measured to be
+    ~40x slower than the obligations decided one by one"""
+    props = list_properties(g, binary, env)
+    own, rest = [], []
+    for p in props:
+        (own if p.get("class") == "assertion" and p["name"].startswith(g["entry"] + ".")
+         else rest).append(p["name"])
+    jobs = [[n] for n in own] + ([rest] if rest else [])
+    agg = dict(backend=g["backend"], cmd=None, rc=0, results=[], status="success", msgs="",
+               wall=0.0, timed_out=False)
+    def one(names):
+        g2 = dict(g)
+        g2["extra"] = list(g["extra"]) + [x for n in names for x in ("--property", n)]
+        return run_cbmc(g2, binary, env, _split=True)
+    with cf.ThreadPoolExecutor(8) as ex:
+        for names, r in zip(jobs, ex.map(one, jobs)):
+            agg["cmd"] = agg["cmd"] or [c for c in r["cmd"] if not c.startswith(g["entry"] + ".")]
+            agg["wall"] += r["wall"]
+            agg["msgs"] += r["msgs"] or ""
+            if r["results"] is None or r["timed_out"]:
+                agg["timed_out"] = agg["timed_out"] or r["timed_out"]
+                agg["results"] += [dict(property=n, description="(no answer) " + n, status="UNKNOWN")
+                                   for n in names]
+                continue
+            agg["results"] += [x for x in r["results"] if x.get("property") in names]
+    agg["timed_out"] = False  # per-property unknowns are already recorded
+    return agg
+
+
+def run_cbmc(g, binary, env, _split=False):
+    if g["split"] and not _split:
+        return run_cbmc_split(g, binary, env)
     backends = {"sat": ["sat"], "cvc5": ["cvc5"], "z3": ["z3"], "kissat": ["kissat"],
                 "portfolio": ["cvc5", "z3"]}[g["backend"]]
     if len(backends) == 1:
         cmd = cbmc_cmd(g, binary, backends[0])
-        rc, out, err, wall, to = sh(cmd, timeout=g["timeout"], mem_gb=g["mem_gb"], env=env)
+        rc, out, err, wall, to = slot_sh(cmd, timeout=g["timeout"], mem_gb=g["mem_gb"], env=env)
         res, status, msgs = parse_cbmc(out)
         return dict(backend=backends[0], cmd=cmd, rc=rc, results=res, status=status,
                     msgs=msgs + err[-1000:], wall=wall, timed_out=to)
@@ -414,7 +553,7 @@ def run_group(pid, g, tier, seed, keep=False):
              discharged=0, failed=[], unknown=[], canaries=0, canaries_ok=0, infra=None,
              violations=[], note=g["note"], neg_control=g["neg_control"], samples=[])
     try:
-        binary = build_goto(g, wd, env)
+        binary = build_goto(g, wd, env, pid)
         cr = run_cbmc(g, binary, env)
         R["backend_used"] = cr["backend"]
         R["solver_wall_s"] = round(cr["wall"], 2)
@@ -465,6 +604,11 @@ def run_group(pid, g, tier, seed, keep=False):
         if results is not None and not undecided and R["canaries"] != R["canaries_ok"]:
             R["infra"] = "vacuity: %d of %d canaries/expected failures were not reached" % (
                 R["canaries"] - R["canaries_ok"], R["canaries"])
+        if results is not None and not undecided and isinstance(g["loops"], dict):
+            want = sum(len(v) for v in g["loops"].values())
+            got = len([r for r in results if ".loop_invariant_step." in (r.get("property") or "")])
+            if got < want:
+                R["infra"] = (R["infra"] or "") + " vacuity: %d loop contracts annotated, %d invariant-step obligations generated" % (want, got)
         if results is not None and R["obligations"] == 0 and not undecided:
             R["infra"] = (R["infra"] or "") + " vacuity: zero obligations generated"
         # ------ failures -> replay
@@ -598,7 +742,8 @@ def run_property(pid, plan, tier, seed, jobs, only=None, keep=False):
         groups = [g for g in groups if re.search(only, g["name"])]
     os.makedirs(os.path.join(WORK, pid), exist_ok=True)
     results = []
-    with cf.ThreadPoolExecutor(jobs) as ex:
+    set_jobs(jobs)
+    with cf.ThreadPoolExecutor(jobs * 2) as ex:
         futs = [ex.submit(run_group, pid, g, tier, seed, keep) for g in groups]
         for f in futs:
             results.append(f.result())
